@@ -1,7 +1,8 @@
 """Native replay of a verifier counter-model on the real code.  Run by /venv/bin/python with
 cwd = the repository the VCs came from.  Exit 10 = the real code violates the clause on the
 concretised input (confirmed), 11 = it does not (the engine or the contract is at fault),
-12 = no realiser for this function / harness error."""
+12 = no realiser for this function, or its scenarios passed / were inconclusive,
+13 = the harness itself failed (traceback)."""
 import json
 import os
 import sys
@@ -24,12 +25,14 @@ def main():
         res = r(d)
     except Exception:
         traceback.print_exc()
-        return 12
+        return 13
     print(json.dumps(res, indent=1, default=repr))
     if res.get("confirmed") is True:
         return 10
     if res.get("confirmed") is False:
         return 11
+    if res.get("harness_error"):
+        return 13
     return 12
 
 
